@@ -66,6 +66,8 @@ EVENTS["dl_exp_dom3"] = bytes([0x27]) + mux(0x2007) + b"\x31\x32\x33\0"
 EVENTS["dl_seg_init_dom_size9"] = bytes([0x21]) + mux(0x2007) + struct.pack("<L", 9)
 EVENTS["dl_seg_init_dom_nosize"] = bytes([0x20]) + mux(0x2007) + bytes(4)
 EVENTS["dl_seg_init_str15"] = bytes([0x20]) + mux(0x2002) + bytes(4)
+EVENTS["dl_seg_init_ro"] = bytes([0x20]) + mux(0x2005) + bytes(4)
+EVENTS["dl_seg_init_small_size7"] = bytes([0x21]) + mux(0x2000) + struct.pack("<L", 7)
 EVENTS["dl_seg_t0_7"] = bytes([0x00]) + b"1234567"
 EVENTS["dl_seg_t1_7"] = bytes([0x10]) + b"abcdefg"
 EVENTS["dl_seg_t1_2_last"] = bytes([0x10 | (5 << 1) | 1]) + b"89" + bytes(5)
@@ -90,7 +92,7 @@ TYPES_DATA = ["VISIBLE_STRING", "UNICODE_STRING", "OCTET_STRING", "DOMAIN"]
 
 
 def bounds(tier):
-    return {"bfs_depth": 5 if tier == "quick" else 10, "events": len(EVENTS),
+    return {"bfs_depth": 4 if tier == "quick" else 9, "events": len(EVENTS),
             "matrix_lengths": "0..24 + {40, 64}" if tier == "quick" else "0..64 + {127, 889, 10000}"}
 
 
@@ -114,7 +116,7 @@ def _probe_chunk(hists):
 
 
 def run_main(tier, seed, jobs, st):
-    depth = 5 if tier == "quick" else 10
+    depth = 4 if tier == "quick" else 9
     k = seed % len(EVENT_NAMES)
     events = EVENT_NAMES[k:] + EVENT_NAMES[:k]
     states = [[]]
